@@ -104,31 +104,81 @@ def run_floats(ctx, n):
                           what="enlarging the tolerances turned a pass into a fail")
 
 
+def near_limit_int(rng, dt):
+    """values of integer type `dt`: type limits and their neighbours, half range (differences overflow), +-2^53
+    (int -> float64 conversion starts to round), small values"""
+    lo, hi = c09.INTS[dt]
+    r = rng.random()
+    if r < 0.22:
+        v = rng.choice([lo, lo + 1, lo + 1, lo + 2, hi, hi, hi - 1, hi - 2])
+    elif r < 0.34:
+        v = rng.choice([-2, -1, 0, 1, 2])
+    elif r < 0.48:
+        v = rng.choice([1, -1]) * (hi // 2 + rng.randint(-2, 2))
+    elif r < 0.60:
+        v = rng.choice([1, -1]) * (2 ** 53 + rng.choice([-1, 0, 1, 2, 3]))
+    else:
+        v = rng.randint(-1000, 1000)
+    return max(lo, min(hi, v))
+
+
+def int_formula(a: int, b: int, rel: float, abs_: float) -> bool:
+    """documented formula on two integers, computed without numpy: exact integer difference and maximum, each converted
+    to binary64 (Python int -> float is correctly rounded), product rounded once"""
+    d = float(abs(b - a))
+    m = float(max(abs(a), abs(b)))
+    return d <= max(rn64(Fraction(m) * Fraction(rel)), abs_)
+
+
+def oracle_int(t, A, B):
+    if not predio.shapes_compatible(A["shape"], B["shape"]):
+        return "F"
+    rel = 0.0 if t[0][0] == "dflt" else t[0][1]
+    return "T" if all(int_formula(x, y, rel, t[1][1]) for x, y in zip(A["v"], B["v"])) else "F"
+
+
 def run_ints(ctx, n):
-    """integers: Default/Exact (exact path) laws for every dtype; explicit FuzzyEquality on same-type ints"""
+    """integers: Default/Exact (exact path) laws for every dtype; explicit FuzzyEquality on same-type ints.
+    Signed operands are drawn near the type limits; the driver decides `hyp` (= every entry pair `intSafe`, theorems
+    C10_int_model_eq_spec/_symm/_refl/_mono) and `mhyp` (model meant to reproduce the code: no type minimum)."""
     rng = ctx.rng
     groups, lines, lidx = [], [], []
     for _ in range(n):
         dt = rng.choice(list(c09.INTS))
         lo, hi = c09.INTS[dt]
         size = rng.choice([1, 2, 5])
-        a = [c09.rand_int(rng, dt) for _ in range(size)]
+        limits = rng.random() < 0.7
+        a = [near_limit_int(rng, dt) if limits else c09.rand_int(rng, dt) for _ in range(size)]
         b = list(a)
-        i = rng.randrange(size)
-        b[i] = max(lo, min(hi, b[i] + rng.choice([0, 1, -1, 2, -3])))
-        A = {"dt": dt, "shape": [size], "v": a}
-        B = {"dt": dt, "shape": [size], "v": b}
-        t1 = (["num", rng.choice([0.0, 1e-3, 0.5])], ["num", rng.choice([0.0, 1.0, 2.0])])
-        t2 = (["num", t1[0][1] * 2 + 0.1], ["num", t1[1][1] + 1.0])
+        for _ in range(rng.choice([1, 1, 2])):
+            i = rng.randrange(size)
+            q = rng.random()
+            if limits and q < 0.3:
+                b[i] = near_limit_int(rng, dt)
+            elif limits and q < 0.5:
+                b[i] = max(lo, min(hi, -a[i] + rng.randint(-2, 2)))     # opposite sign: the difference may overflow
+            else:
+                b[i] = max(lo, min(hi, b[i] + rng.choice([0, 1, -1, 2, -3, 100])))
+        shape = [] if (size == 1 and rng.random() < 0.15) else [size]
+        A = {"dt": dt, "shape": shape, "v": a}
+        B = {"dt": dt, "shape": shape, "v": b}
+        t1 = (rng.choice([["num", 0.0], ["num", 1e-3], ["num", 0.5], ["num", 2.0 ** -52], ["dflt"]]),
+              ["num", rng.choice([0.0, 1.0, 2.0, 56.0, 127.0, 1e18])])
+        r1 = 0.0 if t1[0][0] == "dflt" else t1[0][1]
+        t2 = (["num", r1 * 2 + 0.1], ["num", t1[1][1] + 1.0])
         for kind in ("default", "exact", "fuzzy"):
             unsigned = dt.startswith("u")
             has_min = (not unsigned) and (lo in a or lo in b)
             g = {"kind": kind, "dt": dt, "A": A, "B": B, "t1": t1, "t2": t2, "unsigned": unsigned, "has_min": has_min,
                  "model": {}}
-            # correspondence with the model (same-type ints are modelled for all three predicates)
-            if not has_min and all(abs(x) < 2 ** 53 for x in a + b):
-                for name, (x, y) in {"ab1": (A, B), "ba1": (B, A)}.items():
-                    lines.append(predio.enc_pred(kind, t1[0], t1[1], x, y)); lidx.append((len(groups), name))
+            if kind == "fuzzy":
+                evs = {"aa": (A, A, t1), "ab1": (A, B, t1), "ba1": (B, A, t1), "ab2": (A, B, t2)}
+            elif not has_min and all(abs(x) < 2 ** 53 for x in a + b):
+                evs = {"ab1": (A, B, t1), "ba1": (B, A, t1)}
+            else:
+                evs = {}
+            for name, (x, y, t) in evs.items():
+                lines.append(predio.enc_pred(kind, t[0], t[1], x, y)); lidx.append((len(groups), name))
             groups.append(g)
     if ctx.driver_ok and lines:
         for (gi, name), r in zip(lidx, ctx.lean(lines)):
@@ -139,11 +189,28 @@ def run_ints(ctx, n):
         v = {"aa": predio.run_impl(kind, t1[0], t1[1], A, A), "ab1": predio.run_impl(kind, t1[0], t1[1], A, B),
              "ba1": predio.run_impl(kind, t1[0], t1[1], B, A), "ab2": predio.run_impl(kind, t2[0], t2[1], A, B)}
         case = {"kind": kind, "a": A, "b": B, "t1": t1, "t2": t2}
-        ctx.case(("int", kind, dt, tuple(a), tuple(b), str(t1)), nontrivial=(a != b),
-                 tags=["int", "int-" + kind, dt], sample=None)
+        tags = ["int", "int-" + kind, dt]
+        if kind == "fuzzy" and g["model"]:
+            hyps = {r.get("hyp") for r in g["model"].values()}
+            tags.append("int-fuzzy-hyp" if hyps == {"1"} else "int-fuzzy-nohyp")
+            if not g["unsigned"]:
+                tags.append("signed-" + ("safe" if hyps == {"1"} else "min" if g["has_min"] else "diff-overflow"))
+        ctx.case(("int", kind, dt, tuple(a), tuple(b), str(A["shape"]), str(t1)), nontrivial=(a != b), tags=tags, sample=None)
         for name, r in g["model"].items():
-            if "model" in r and r["model"] != v[name]:
+            if "model" not in r:
+                ctx.inconsistent(dict(case, evaluation=name), str(r), "bad-op")
+                continue
+            inside = r.get("hyp") == "1" or (kind == "fuzzy" and r.get("mhyp") == "1") or kind != "fuzzy"
+            if inside and r["model"] != v[name]:
                 ctx.mismatch(dict(case, evaluation=name), v[name], r["model"])
+            if kind == "fuzzy" and r.get("hyp") == "1":
+                # theorem C10_int_model_eq_spec: model = integer formula; cross-checked with the Python oracle
+                x, y, t = {"aa": (A, A, t1), "ab1": (A, B, t1), "ba1": (B, A, t1), "ab2": (A, B, t2)}[name]
+                if r["spec"] != r["model"]:
+                    ctx.inconsistent(dict(case, evaluation=name), r["model"], r["spec"])
+                orc = oracle_int(t, x, y)
+                if r["spec"] != orc:
+                    ctx.inconsistent(dict(case, evaluation=name), "lean-spec=" + r["spec"], "python-oracle=" + orc)
         cls = None
         if kind == "fuzzy" and g["unsigned"]:
             cls = "F12"      # known: unsigned subtraction wraps
@@ -246,7 +313,9 @@ def run_history(ctx, n):
 def run(ctx):
     ctx.rule = ("metamorphic groups on real predicate objects: float64 pairs (boundary-directed deviations, shapes "
                 "(n,),(n,k),(n,k,k)) evaluated as (a,a),(a,b),(b,a) and at tolerance levels t1<=t2 (scalar, per-component, "
-                "scaled); integer pairs of every width/signedness under Default/Exact/Fuzzy; ScaledTolerance values on "
+                "scaled); integer pairs of every width/signedness under Default/Exact/Fuzzy (values at the type limits, half range, "
+                "+-2^53; (n,) and 0-d; signed pairs are classified by the driver as safe / type-minimum / overflowing "
+                "difference); ScaledTolerance values on "
                 "float and integer arrays; predicate objects reused across 3-6 fields; non-trivial = a != b; distinct = "
                 "distinct operands+tolerances")
     ctx.assumptions += ["numpy float64 arithmetic = round-to-nearest-even (model compared on every evaluation)"]
